@@ -35,6 +35,10 @@ structure SParams where
   tail : List Nat
   /-- row ids that must not be looked up (hidden ids of the right scope, ids of tainted groups) -/
   F : List Str
+  /-- node names of the two scopes correspond (otherwise no named node may be looked up) -/
+  nmAll : Bool
+  /-- the row ids the right scope sees below those of the left scope -/
+  outer : List (Str × Nat)
 
 variable {P : Params} {X : SParams}
 
@@ -48,7 +52,8 @@ structure SSim (P : Params) (X : SParams) (s₁ s₂ : St) : Prop where
   riDG : ∀ p ∈ s₁.rowIds, P.DG p.2
   rl : ∀ p ∈ s₁.rowIds, P.T p.2 → p.1 ∈ X.F
   rk : ∀ p ∈ s₁.rowIds, p.1 ≠ []
-  nm : ∀ x, x ≠ [] → lookupIn s₂.names x = (lookupIn s₁.names x).map P.ν
+  rk2 : ∀ id, (∀ p ∈ s₁.rowIds, p.1 ≠ id) → lookupIn s₂.rowIds id = lookupIn X.outer id
+  nm : X.nmAll = true → ∀ x, x ≠ [] → lookupIn s₂.names x = (lookupIn s₁.names x).map P.ν
   nmDN : ∀ p ∈ s₁.names, P.DN p.2
 
 theorem SSim.of_seq {s₁ s₂ t₁ t₂ : St} (h : SSim P X s₁ s₂) (e1 : SEq s₁ t₁) (e2 : SEq s₂ t₂) : SSim P X t₁ t₂ := by
@@ -64,6 +69,7 @@ theorem SSim.of_seq {s₁ s₂ t₁ t₂ : St} (h : SSim P X s₁ s₂) (e1 : SE
   · rw [a2]; exact h.riDG
   · rw [a2]; exact h.rl
   · rw [a2]; exact h.rk
+  · rw [a2, b2]; exact h.rk2
   · rw [a3, b3]; exact h.nm
   · rw [a3]; exact h.nmDN
 
